@@ -52,8 +52,9 @@ AllNumeric(toks) == \A i \in DOMAIN toks : toks[i].k = "val" => toks[i].v.k = "n
 AnyUnspec(toks)  == \E i \in DOMAIN toks : toks[i].k = "val" /\ toks[i].v.k = "unspec"
 AsNumTok(t) == IF t.k = "val" THEN [k |-> "num", q |-> t.v.q] ELSE t
 
-\* meaning of a use expression
-UseMeaning(env, toks) ==
+\* meaning of a use expression; Mixed(s) gives the meaning of an expression over values that are not all plain numbers
+\* (defined in Meaning.tla, where the arithmetic of the other kinds is known)
+UseMeaningWith(env, toks, Mixed(_)) ==
   LET s == Subst(env, toks) IN
   IF AnyUnspec(s) THEN Unspec
   ELSE IF Len(s) = 1 /\ s[1].k = "val" THEN s[1].v                      \* a bare name: the value, of any kind
@@ -61,5 +62,7 @@ UseMeaning(env, toks) ==
          LET n == [i \in DOMAIN s |-> AsNumTok(s[i])]
              r == ArithLine(n)
          IN  IF r.ok THEN Num(r.v) ELSE Unspec
-  ELSE Unspec                                                          \* mixed-kind arithmetic: other properties
+  ELSE Mixed(s)
+NoMixed(s) == Unspec
+UseMeaning(env, toks) == UseMeaningWith(env, toks, NoMixed)
 =============================================================================
